@@ -22,6 +22,10 @@ var (
 	hookOldContent3 = "#!/bin/sh\ncommand -v git-lfs >/dev/null 2>&1 || { echo >&2 \"\\nThis repository is configured for Git LFS but 'git-lfs' was not found on your path. If you no longer wish to use Git LFS, remove this hook by deleting .git/hooks/{{Command}}.\\n\"; exit 2; }\ngit lfs {{Command}} \"$@\""
 )
 
+// hookSizeLimit is the size in bytes of the largest file that can be one of the
+// hooks written by Git LFS.
+const hookSizeLimit = 1024
+
 // A Hook represents a githook as described in http://git-scm.com/docs/githooks.
 // Hooks have a type, which is the type of hook that they are, and a body, which
 // represents the thing they will execute when invoked by Git.
@@ -151,22 +155,26 @@ func (h *Hook) matchesCurrent() (bool, bool, error) {
 		return false, false, err
 	}
 
-	by, err := io.ReadAll(io.LimitReader(file, 1024))
+	by, err := io.ReadAll(io.LimitReader(file, hookSizeLimit+1))
 	file.Close()
 	if err != nil {
 		return false, false, err
 	}
 
 	contents := strings.TrimSpace(tools.Undent(string(by)))
-	if contents == h.Contents {
-		return true, true, nil
-	} else if len(contents) == 0 {
-		return true, false, nil
-	}
-
-	for _, u := range h.upgradeables {
-		if u == contents {
+	// None of our hooks is longer than the window read above; a file that
+	// is has content of its own beyond it and is not ours to replace.
+	if len(by) <= hookSizeLimit {
+		if contents == h.Contents {
+			return true, true, nil
+		} else if len(contents) == 0 {
 			return true, false, nil
+		}
+
+		for _, u := range h.upgradeables {
+			if u == contents {
+				return true, false, nil
+			}
 		}
 	}
 
